@@ -46,7 +46,7 @@ type scOp struct {
 	chunk  bool
 	cond   bool // origin honours If-None-Match: 304 when it names the current ETag
 	cl0    bool // ... and that 304 carries Content-Length: 0 (legal, unusual)
-	cc304  string // ... and this Cache-Control instead of the 200's ("" = the same as the 200's)
+	cc304  string // ... and this Cache-Control instead of the 200's ("" = the same as the 200's, "-" = none at all: a bare 304)
 }
 
 var scReqHeaders = [][2]string{
@@ -95,7 +95,7 @@ func syscGen(g *hx.Gen, id int) (int, []scOp) {
 				o.cond = true
 				o.cl0 = g.Chance(40)
 				if g.Chance(25) {
-					o.cc304 = g.Pick([]string{"no-store", "private", "no-cache", "max-age=0", "max-age=60"})
+					o.cc304 = g.Pick([]string{"no-store", "private", "no-cache", "max-age=0", "max-age=60", "-", "-"})
 				}
 			}
 		}
@@ -220,6 +220,10 @@ func syscGen(g *hx.Gen, id int) (int, []scOp) {
 			o.hdr = append(o.hdr, [2]string{"Content-Encoding", g.Pick([]string{"gzip", "br"})})
 		}
 		if g.Chance(30) {
+			// a BARE 304 (validator only, no Cache-Control: legal and common): the entry keeps the lifetime it was stored with,
+			// counted from the validation (seeded change C08-m8: the merge deleted the stored Cache-Control)
+			o.cc304 = "-"
+		} else if g.Chance(30) {
 			// the 304 forbids what the 200 allowed: the entry must not be served from the cache afterwards
 			o.cc304 = g.Pick([]string{"no-store", "private", "no-cache", "max-age=0", "s-maxage=0"})
 		}
@@ -449,7 +453,7 @@ func syscRunRH(stream string, id int, force int, rh [][2]string, withRH bool, op
 							h = append(h, kv)
 						}
 					}
-					if o.cc304 != "" {
+					if o.cc304 != "" && o.cc304 != "-" {
 						h = append(h, [2]string{"Cache-Control", o.cc304})
 					}
 					if o.cl0 {
